@@ -85,7 +85,7 @@ type signingCertV2 struct {
 
 // TSABehaviours is the alphabet of timestamp-authority behaviours.
 var TSABehaviours = []string{
-	"granted", "granted-with-mods",
+	"granted", "granted-with-mods", "granted-by-the-other-authority",
 	"status-rejection", "status-waiting", "status-revocation-warning",
 	"imprint-of-other-bytes", "imprint-other-hash", "wrong-nonce", "no-nonce",
 	"untrusted-root", "certificates-omitted", "only-leaf-included",
@@ -193,6 +193,10 @@ func tsaChain(n int, defect string) *pki.Chain {
 func NewTSA(behaviour string, n int) *TSA {
 	t := &TSA{Behaviour: behaviour, Len: n}
 	switch behaviour {
+	case "granted-by-the-other-authority":
+		// the authority the "untrusted-root" cases meet, asked by a caller who
+		// does trust its root
+		t.chain = tsaChain(n, "untrusted-root")
 	case "untrusted-root", "leaf-eku-not-critical", "leaf-eku-extra", "leaf-ku-keyencipherment", "leaf-ca-true", "leaf-ku-absent", "ca-ku-absent", "ca-no-certsign", "ca-pathlen-too-small", "tsa-chain-expired", "tsa-chain-not-yet-valid":
 		t.chain = tsaChain(n, behaviour)
 	default:
@@ -372,7 +376,7 @@ func (t *TSA) token(req *tspclient.Request, serial *big.Int) ([]byte, []byte, as
 // goodBehaviour says whether the behaviour is one the caller must accept.
 func (t *TSA) goodBehaviour() bool {
 	switch t.Behaviour {
-	case "granted", "granted-with-mods":
+	case "granted", "granted-with-mods", "granted-by-the-other-authority":
 		return true
 	case "only-leaf-included":
 		return t.Len == 2 // with intermediates missing the chain cannot be built
